@@ -193,6 +193,22 @@ def translate(repo=None):
     return "\n".join(out) + "\n"
 
 
+def limits_lenient(repo=None):
+    """the compiler's numeric limits, read tolerantly (never raises): used to aim the generators' boundary stream even when the
+    strict translator rejects the source"""
+    repo = repo or vlib.REPO
+    out = {"break": 100, "continue": 100, "prev_opcodes": 100}
+    try:
+        h = open(os.path.join(repo, "src", "Script", "Compiler.h")).read()
+        for key, name in (("break", "BREAK_JUMP_LOCATION_COUNT"), ("continue", "CONTINUE_JUMP_LOCATION_COUNT"), ("prev_opcodes", "MAX_PREV_OPCODES")):
+            m = re.search(r"%s\s*=\s*(\d+)" % name, h)
+            if m and 2 <= int(m.group(1)) <= 5000:
+                out[key] = int(m.group(1))
+    except OSError:
+        pass
+    return out
+
+
 def write_generated():
     """returns (changed, text); raises TranslatorError"""
     txt = translate()
